@@ -17,7 +17,7 @@ func callDisplayName(c *ssa.CallCommon) string {
 		return c.Method.Name()
 	}
 	if fn := c.StaticCallee(); fn != nil {
-		return fn.Name()
+		return baseName(fn)
 	}
 	if b, ok := c.Value.(*ssa.Builtin); ok {
 		return b.Name()
